@@ -156,12 +156,12 @@ prop('C17', 'p64', 'exploration',
      'Buckets from {0,1,2,0x7FFFFFFF,0xFFFFFFFE,0xFFFFFFFF}; every member compared with its model after every step (whole-bucket members: when changed and every 8th step); any panic is a violation. Non-trivial = some member spans >=2 buckets and >=1 operation touched >=2 buckets; distinct = FNV-64 of the op list. '
      'TestC17Agg: FastOr/FastAnd/ParOr over lists of 0..6 roaring64 bitmaps whose buckets fall in a common window of 1..70 buckets at the bottom, middle or very top (ending at 0xFFFFFFFF) of the bucket space, ParOr with every worker count in {0,1,2,3,4,7,16}, vs the model fold',
      T(8, 120, 16, 2500),
-     'model-based stateful property testing against a uint64 interval-set model (rapid state machine)',
-     'generated histories compared step by step with a model', 'trusted: interval-set model; independent 64-bit decoder for whole-bucket contents', SER_ASSUME, run='^TestC17(Agg)?$')
+     'model-based stateful property testing against a uint64 interval-set model (rapid state machine); thorough tier adds a coverage-guided native fuzz campaign over byte-coded operation scripts (FuzzOps64)',
+     'generated histories compared step by step with a model', 'trusted: interval-set model; independent 64-bit decoder for whole-bucket contents', SER_ASSUME, run='^TestC17(Agg)?$', fuzz=[('p64', 'FuzzOps64', 120)])
 
 prop('C18', 'p64', 'fault_enumeration',
      'per rapid-generated roaring64 bitmap (0..3 buckets from {0,1,2,0x7FFFFFFF,0xFFFFFFFE,0xFFFFFFFF}, then 0-4 range mutations): writers agree (ToBytes/WriteTo/MarshalBinary/ToBase64), size == GetSerializedSizeInBytes == n, an independent decoder of the 64-bit layout reads the bytes back to the model, '
-     'ReadFrom (7-byte reads, counting reader) / FromUnsafeBytes / UnmarshalBinary / FromBase64 with trailing garbage give an Equal, validating, still-working bitmap and consume exactly the serialization; then fault enumeration: EVERY proper prefix (<=1024 bytes; else 200 random cuts + header cuts) through all four entry points, '
+     'ReadFrom (counting reader delivering drawn piece sizes from {1,2,3,4,5,7,8,13,4096}, optionally the last piece together with EOF) / FromUnsafeBytes / UnmarshalBinary / FromBase64 with trailing garbage give an Equal, validating, still-working bitmap and consume exactly the serialization; then fault enumeration: EVERY proper prefix (<=1024 bytes; else 200 random cuts + header cuts) through all four entry points, '
      'bucket-count corruptions {0, n-1, n+1, n+2, 1000} in process and {2^31, 2^33, 2^62, 2^64-1} in a CHILD PROCESS under a 4 GiB address-space limit (death, panic or >60 s = violation), duplicate/descending bucket keys, inner cookie/count/byte corruptions. '
      'Non-trivial = >=2 buckets or a damaged stream beyond the count; distinct = FNV-64 of the set description',
      T(8, 60, 16, 1200),
